@@ -192,6 +192,9 @@ pub fn exec(c: &Case, em: &mut Emitter) {
         em.emit(json!({"t":"live","out": live_run()}));
         return;
     }
+    // the arrival-point runs own every signal: under a frozen virtual clock the real monitor thread
+    // never finds a coroutine overdue, however long this process is descheduled
+    open_coroutine_core::verif::clock_enable(1_700_000_000_000_000_000);
     let reference = run_once(&Case { progs: c.progs.clone(), sig: None, live: false });
     let with = run_once(c);
     em.emit(json!({"t":"end","reference": reference.results.iter().map(|(w, r)| json!([w, r])).collect::<Vec<_>>(),
